@@ -431,7 +431,7 @@ def gen_sequence(rng: random.Random) -> T.List[T.Tuple[T.Any, ...]]:
     the member - and, for a copy, the object it was copied from at copy time - has not been used), and
     assignment to a new variable.  Half of the histories have a single object (use, merge, use again).  Ops:
        ('init', entries) ('copy', src, dst) ('set', obj, entries) ('merge', obj, entries)
-       ('emit', obj, kind, macro_name)   kind: c | nasm | json | template
+       ('emit', obj, kind, macro_name)   kind: c | nasm | json | template | template-cmake | template-cmake@
        ('universe', keys) last"""
     universe = rng.sample(HEADER_KEYS, rng.randint(4, 9))
     rng.shuffle(universe)
@@ -453,7 +453,7 @@ def gen_sequence(rng: random.Random) -> T.List[T.Tuple[T.Any, ...]]:
         elif step > 0 and r < 0.85 or r < 0.25:
             ops.append(('merge', tgt, _seq_entries(rng, ks)))
         who = rng.randrange(len(used))
-        kind = rng.choice(['c', 'c', 'c', 'nasm', 'json', 'template', 'template'])
+        kind = rng.choice(['c', 'c', 'c', 'nasm', 'json', 'template', 'template', 'template-cmake', 'template-cmake@'])
         if step == nsteps - 1 and rng.random() < 0.7:
             kind = rng.choice(['c', 'nasm'])
         macro = rng.choice([None, None, 'SEQ_GUARD_H']) if kind == 'c' else None
@@ -461,3 +461,45 @@ def gen_sequence(rng: random.Random) -> T.List[T.Tuple[T.Any, ...]]:
         used[who] = True
     ops.append(('universe', list(universe)))
     return ops
+
+
+# ---- ONE object through configure_file() calls of DIFFERENT formats, in every order -----------------
+EMIT_KINDS = ('template', 'template-cmake', 'template-cmake@', 'c', 'nasm', 'json')
+
+
+def _order_entries(rng: random.Random) -> T.Dict[str, T.Tuple[T.Any, T.Optional[str]]]:
+    """Entries of every documented value type (Configuration.md: strings, integers, booleans), each class at
+    least once, under keys drawn per chain."""
+    values: T.List[T.Any] = [True, False, 0, 1, rng.choice([42, -3, 7]), 'a_token', '"string"',
+                             rng.choice(['', 'two words', 'v2']), _seq_value(rng)]
+    keys = rng.sample(HEADER_KEYS, len(values))
+    rng.shuffle(values)
+    return {k: (v, ('about ' + k) if rng.random() < 0.2 else None) for k, v in zip(keys, values)}
+
+
+def gen_format_orders(rng: random.Random, part: int, nparts: int, nperm: int,
+                      all_perms: bool = False) -> T.List[T.List[T.Tuple[T.Any, ...]]]:
+    """Chains in the op language of gen_sequence(): a fresh configuration_data() object holding booleans,
+    integers and strings is handed to configure_file() calls of different kinds one after the other.
+    Every ORDERED pair of the six kinds (36, the same kind twice included; split over `nparts` callers) plus
+    `nperm` orders of all six (random, or - all_perms - the slice `part` of all 720)."""
+    import itertools
+    chains: T.List[T.Tuple[str, ...]] = []
+    pairs = [(a, b) for a in EMIT_KINDS for b in EMIT_KINDS]
+    chains += [p for i, p in enumerate(pairs) if i % nparts == part]
+    if all_perms:
+        chains += [p for i, p in enumerate(itertools.permutations(EMIT_KINDS)) if i % nparts == part]
+    else:
+        for _ in range(nperm):
+            p = list(EMIT_KINDS)
+            rng.shuffle(p)
+            chains.append(tuple(p))
+    out: T.List[T.List[T.Tuple[T.Any, ...]]] = []
+    for ch in chains:
+        entries = _order_entries(rng)
+        ops: T.List[T.Tuple[T.Any, ...]] = [('init', entries)]
+        for kind in ch:
+            ops.append(('emit', 0, kind, None))
+        ops.append(('universe', list(entries)))
+        out.append(ops)
+    return out
